@@ -119,7 +119,7 @@ namespace RecInt
             copy(b, a);
         } else if (d == 1) {
             left_shift_1(b, a);
-        } else if (d > T(NBBITS<K>::value)) {
+        } else if (UDItype(d) > UDItype(NBBITS<K>::value)) { // not T(NBBITS): it is 0 for an 8-bit T at K = 8
             reset(b);
         } else if (defect > 0) {
             // b = a << d <=> b.High = (a.High << d) + (a.Low >> (NBBITS<K-1> - d))
@@ -193,7 +193,7 @@ namespace RecInt
             copy(b, a);
         } else if (d == 1) {
             right_shift_1(b, a);
-        } else if (d > T(NBBITS<K>::value)) {
+        } else if (UDItype(d) > UDItype(NBBITS<K>::value)) { // not T(NBBITS): it is 0 for an 8-bit T at K = 8
             reset(b);
         } else if (defect > 0) {
             // b = a >> d <=> b.High = a.High >> d
